@@ -14,16 +14,13 @@ def extract(g, X):
     pr = X.strip_comments(X.read("pdf/src/primitive.rs"))
 
     def ws():
-        b = X.fn_body(lx, "is_whitespace")
-        (v,) = X.fn_params(lx, "is_whitespace")
-        return X.cl(X.ordered(X.byte_set(b, v, lx, body=b), [0, 32, 13, 10, 9, 12]))
+        return X.cl(X.ordered(X.pred_fn_set(lx, "is_whitespace"), [0, 32, 13, 10, 9, 12]))
     g.attempt([("lex_ws", "list N")], "lexer/mod.rs:is_whitespace", ws)
 
     def delims():
         # fn is_delimiter(&self, pos) — the method on Lexer: <bytes>.contains(<the byte at pos>)
         b = X.item_body(lx, r"fn\s+is_delimiter\s*\(\s*&self[^)]*\)\s*->\s*bool\s*\{", "Lexer::is_delimiter")
-        mm = re.search(r'(b"(?:\\.|[^"\\])*"|&?\[[^\]]*\]|\w+)\s*\.contains\(', b)
-        return X.cl(X.ordered(X.byte_string(mm.group(1), b, lx), [40, 41, 60, 62, 91, 93, 123, 125, 47, 37]))
+        return X.cl(X.ordered(X.contains_bytes(b, lx), [40, 41, 60, 62, 91, 93, 123, 125, 47, 37]))
     g.attempt([("lex_delims", "list N")], "lexer/mod.rs:Lexer::is_delimiter", delims)
 
     def comment():
@@ -73,28 +70,12 @@ def extract(g, X):
     g.attempt([("hexstr_ws", "list N")], "lexer/str.rs:HexStringLexer::next_non_whitespace_char", hexws)
 
     def hexdig():
-        b = X.fn_body(st, "next_hex_byte")
-        tabs, ends = [], []
-        for m in re.finditer(r"\bmatch\s+(\w+)\s*\{", b):
-            o = m.end() - 1
-            arms = X.match_arms(b[o + 1:X.close_of(b, o)])
-            rows = []
-            for arm in arms:
-                mm = re.fullmatch(r"(" + B + r")\s*\.\.=\s*(" + B + r")", arm.pattern)
-                if mm and arm.guard is None:
-                    lo = iv(mm.group(1))
-                    add = X.affine(arm.expr, m.group(1)) + lo
-                    if add < 0:
-                        raise ValueError("arm subtracts more than its range start")
-                    rows.append((lo, iv(mm.group(2)), add))
-                elif re.fullmatch(B, arm.pattern) and re.fullmatch(r"return\s+Ok\(\s*None\s*\)\s*;?", arm.expr):
-                    ends.append(iv(arm.pattern))
-            if rows:
-                tabs.append(X.ordered_by_key(rows, [48, 65, 97]))
-        if len(tabs) != 2 or tabs[0] != tabs[1]:
+        tabs = X.hex_nibble_tables(X.fn_body(st, "next_hex_byte"))
+        rows = [X.ordered_by_key(r, [48, 65, 97]) for r, _, _ in tabs]
+        if len(rows) != 2 or rows[0] != rows[1]:
             raise ValueError("high/low nibble arms differ or missing")
-        (end,) = ends
-        return X.ctuples(tabs[0]), str(end)
+        (end,) = [v for _, singles, _ in tabs for v, e in singles if re.fullmatch(r"return\s+Ok\(\s*None\s*\)\s*;?", e)]
+        return X.ctuples(rows[0]), str(end)
     g.attempt([("hexstr_digits", "list (N * N * N)"), ("hexstr_end", "N")], "lexer/str.rs:HexStringLexer::next_hex_byte", hexdig)
 
     def maxdepth():
